@@ -21,7 +21,8 @@ var profile = gen.Profile{
 	PCancel: 18, PBurst: 25, PObey: 35, Builtins: true, Pins: true,
 	PSendFault: 20,             // the channel refuses a reply now and then: the id is free again all the same
 	AllowPush:  true, PPush: 7, // outstanding server callbacks use ids 1, 2, 3 of their own
-	Outcomes: []string{"ok", "ok", "err:-32000", "ctxerr", "bad", "baderr", "badraw", "emptyraw"},
+	Outcomes: []string{"ok", "ok", "endbase", "err:-32000", "ctxerr", "bad", "baderr", "badraw", "emptyraw"},
+	OwnBase:  true, // "its base context ends": a handler that ends its own must not end a batch-mate's
 	Chans:    []string{"direct", "pipe"},
 }
 
